@@ -66,7 +66,13 @@ struct Cyc {
             if (!same) l << "transfer-operators-differ-from-op-line";
             long n = h.A.n;
             bool symA = is_symmetric(h.A);
-            bool symcfg = symA && h.kind != 3 && t.npre == t.npost;     // symmetric smoother pairs, R = P^T
+            // symmetric smoother pairs, R = P^T.  smoothed_aggr_emin computes R = R_tent - Omega R_tent Af D^-1 separately from
+            // P = P_tent - D^-1 Af P_tent Omega; for SYMMETRIC A the filtered matrix Af is symmetric (the strength test is
+            // symmetric), hence R = P^T exactly there as well, on every level (the Galerkin operators stay symmetric)
+            bool symcfg = symA && t.npre == t.npost;
+            if (symA || h.kind != 3) for (size_t k = 0; k < g_rec.size(); ++k)
+                if (!dense_eq(dense(*g_rec[k].second), dtrans(dense(*g_rec[k].first), g_rec[k].first->ncols))) {
+                    r.fail(std::string("restriction is not the transpose of the prolongation (R != P^T) on level ") + std::to_string(k) + (h.kind == 3 ? " for smoothed_aggr_emin on a symmetric matrix" : "")); break; }
             if (op == "amg_apply") {
                 std::vector<Q> hh = vcomb(a, f, b, g);
                 std::vector<Q> x1 = apply(amg, f), x2 = apply(amg, g), x3 = apply(amg, f), x4 = apply(amg, hh);
